@@ -62,6 +62,12 @@ def injections(draw):
     if deep and draw(st.integers(0, 6)) > 0:
         pos = deep  # prefer nested positions; the root is the easy case
     path = list(draw(st.sampled_from(pos)))
+    if not use_definitions and draw(st.integers(0, 5)) == 0:
+        # the carrier sits under a property whose Python name collides with a LATER sibling's: the parser
+        # keeps only one of them as a property, but must still have looked at both schemas
+        first, second = draw(st.sampled_from([("a-b", "a_b"), ("a b", "a-b"), ("class", "class_"), ("1x", "_1x")]))
+        schema = {"type": "object", "title": "Outer", "properties": {first: schema, second: {"type": "string"}}}
+        path = ["properties", first] + path
     kw = draw(st.sampled_from(UNSUPPORTED))
     if kw == "$defs":
         value = {"x": draw(st.sampled_from([{}, {"type": "string"}, True]))}
